@@ -19,7 +19,8 @@ import ast
 import itertools
 import struct as _struct
 
-from .absint import Interp, Sym, Lin, BufV, BytesV, Obj, Comp, Bound, Raised, PackerV, LambdaV, CondV, explore, show
+from .absint import (Interp, Sym, Lin, BufV, BytesV, Obj, Comp, Bound, Raised, PackerV, LambdaV, CondV, Split, explore, show,
+                     _Break, _Continue)
 from .bits import Bits
 from .consts import Folder, Ref, EnumVal, Unknown
 from .model import DEX, DEX_TYPES, AnalysisError, walk_no_nested, dotted
@@ -48,6 +49,13 @@ class StreamV:
 
     def __bool__(self):
         return True
+
+
+class PackerFactoryV:
+    """the value of DalvikPacker(endian_tag): packer[fmt] is struct.Struct('<' + fmt) (endian tag checked under C09)"""
+
+    def __repr__(self):
+        return "<DalvikPacker>"
 
 
 def is_cm(v):
@@ -81,6 +89,50 @@ class DexInterp(Interp):
             elif isinstance(d, ast.Name) and d.id == "classmethod" and func.cls is not None:
                 recv = Ref("class", func.cls)
         return super().call_function(func, args, kwargs, recv=recv)
+
+    def _decide(self, v):
+        if isinstance(v, bool):
+            return v
+        if isinstance(v, Bits):
+            v = v.subst(self.asg)
+            return (v.value() != 0) if v.is_const() else None
+        if isinstance(v, CondV):
+            try:
+                return self.truth_cond_eval(v)
+            except Exception:
+                return None
+        if isinstance(v, (Sym, Lin, Comp)):
+            return None
+        try:
+            return bool(v)
+        except Exception:
+            return None
+
+    def exec_while(self, s, env, func):
+        """a while-loop whose test is undecidable in the abstract domain (`while len(xs) < self.size`) is treated like a
+        for-loop over a symbolic sequence: the body is analysed once"""
+        n = 0
+        while True:
+            d = self._decide(self.eval(s.test, env, func))
+            if d is None:
+                self.events.append(("symbolic-loop", (func.qualname, ast.unparse(s.test))))
+                try:
+                    self.exec_block(s.body, env, func)
+                except (_Break, _Continue):
+                    pass
+                return
+            if not d:
+                self.exec_block(s.orelse, env, func)
+                return
+            n += 1
+            if n > 64:
+                raise AnalysisError("%s: while loop not bounded by abstract evaluation" % func.loc(s))
+            try:
+                self.exec_block(s.body, env, func)
+            except _Break:
+                return
+            except _Continue:
+                continue
 
     def unknown(self, v, node, func):
         """opaque_default=False: follow only the path on which every opaque validation test is false
@@ -159,6 +211,9 @@ class DexInterp(Interp):
                 st.log.append(("cstring", k))
                 st.pos = self.binop(ast.Add(), st.pos, Sym("strlen", st.name, k), e)
                 return Sym("cstring", st.name, k)
+        if name == "setattr" and len(args) == 3 and isinstance(args[0], Obj) and isinstance(args[1], str) and not isinstance(callee, (Ref, Bound)):
+            args[0].attrs[args[1]] = args[2]
+            return None
         if name == "calcsize" and args and isinstance(args[0], str):
             try:
                 return _struct.calcsize("<" + args[0].lstrip("<=@!>"))
@@ -172,6 +227,8 @@ class DexInterp(Interp):
             classes = args[1] if isinstance(args[1], tuple) else (args[1],)
             if all(isinstance(c, Ref) and c.kind == "class" for c in classes):
                 return any(args[0].cls.is_subclass_of(c.obj.name) for c in classes)
+        if isinstance(callee, Ref) and callee.kind == "class" and callee.obj.name == "DalvikPacker" and callee.obj.lookup("__getitem__") is not None:
+            return PackerFactoryV()
         if isinstance(callee, Ref) and callee.kind == "class" and self.construct(callee.obj):
             return self.construct_obj(callee.obj, args, kwargs)
         return NotImplemented
@@ -191,10 +248,42 @@ class DexInterp(Interp):
 
     # Comp[idx] where the comprehension's element is an abstract object: the representative element
     def _h_subscript(self, it, base, k, e, func):
+        if isinstance(base, PackerFactoryV) and isinstance(k, str):
+            return PackerV("<" + k)
         if isinstance(base, Comp) and base.kind == "list" and isinstance(base.elt, Obj):
             base.elt.attrs["__selected_by__"] = k
             return base.elt
         return NotImplemented
+
+
+def explore_first(run, max_runs=600):
+    """depth-first search for ONE abstract path on which run(asg) does not raise: opaque tests are tried False first,
+    and a path that ends in an abstract exception is abandoned by flipping its most recent undecided test.
+    (`if bad: raise` and `if good: return; raise` validation chains are passed on the all-checks-pass path.)
+    -> (asg, result)"""
+    stack = [{}]
+    runs = 0
+    last = None
+    while stack:
+        asg = stack.pop()
+        runs += 1
+        if runs > max_runs:
+            raise AnalysisError("no non-raising abstract path found within %d runs (last: %s)" % (max_runs, last))
+        try:
+            return asg, run(asg)
+        except Split as sp:
+            keys = [k for k in sp.keys if k not in asg]
+            if not keys:
+                raise AnalysisError("split made no progress: %r" % (sp.keys,))
+            alts = list(itertools.product((0, 1), repeat=len(keys)))[:16]
+            for vals in reversed(alts):
+                a2 = dict(asg)
+                a2.update(zip(keys, vals))
+                stack.append(a2)
+        except Raised as r:
+            last = r
+            continue
+    raise AnalysisError("every abstract path raises (last: %s)" % last)
 
 
 def bind_ctor_args(cls, stream, cm, size=None):
